@@ -168,9 +168,9 @@ pub fn spec(property: &str, tier: &str) -> Option<CheckSpec> {
 				"pibdsim",
 				"exploration",
 				if quick { 12 } else { 48 },
-				"case = one generated chain with spends (every 4th case an 86+ block chain whose serving node is compacted first; every 8th a 121-127 block chain with 11 outputs per block, so that the archive header commits to more than 1024 outputs and the unspent bitmap MMR has several leaves; one world in eight ends in 32 transaction-free blocks, so that nothing is spent between the archive header and the serving head). Per world first a hostile requester: every segment type x 30 heights (0..=255 sampled) x 12 indices (0..3, around the last segment, 2^32+1, 2^63, 2^64-1) is requested from the real Segmenter on a helper thread: each answer is an error or a segment within 20 s, no panic, and a kernel segment handed out validates against the archive header. Then run = one state sync of a fresh headers-only receiver from the serving node: a harness loop mirroring StateSync::continue_pibd asks the real Segmenter for the segments the real Desegmenter wants (plus the harness's own enumeration of missing segments), responses travel serialized over a simulated network that reorders, duplicates, drops (re-requested) and corrupts one element (leaf data, leaf position, pruned-subtree hash, proof hash, identifier, omitted leaf, companion root, bitmap chunk bits); segment heights 0-4 through the cfg(grin_verif) override so that 45-90 block chains need several segments per MMR; one run in six uses txhashset_read -> zip -> txhashset_write instead. Oracle: honest segments validate (once the bitmap is assembled), corrupted ones are refused by add_*_segment, assembly completes within a bounded number of fault-free rounds, and the finalized head/roots/sizes/unspent set/validate(false) equal those of a node that processed every block to the archive header; then the remaining blocks are accepted, the tip state equals the server's and a restart succeeds",
+				"case = one generated chain with spends (every 4th case an 86+ block chain whose serving node is compacted first; every 8th a 121-127 block chain with 11 outputs per block, so that the archive header commits to more than 1024 outputs and the unspent bitmap MMR has several leaves; one world in eight ends in 32 transaction-free blocks, so that nothing is spent between the archive header and the serving head). Per world first a hostile requester: every segment type x 30 heights (0..=255 sampled) x 12 indices (0..3, around the last segment, 2^32+1, 2^63, 2^64-1) is requested from the real Segmenter on a helper thread: each answer is an error or a segment within 20 s, no panic, and a kernel segment handed out validates against the archive header. Then run = one state sync of a fresh headers-only receiver from the serving node: a harness loop mirroring StateSync::continue_pibd asks the real Segmenter for the segments the real Desegmenter wants (plus the harness's own enumeration of missing segments), responses travel serialized over a simulated network that reorders, duplicates, drops (re-requested) and corrupts one element (leaf data, leaf position, pruned-subtree hash, proof hash, identifier, omitted leaf, companion root, bitmap chunk bits); segment heights 0-4 through the cfg(grin_verif) override so that 45-90 block chains need several segments per MMR; one run in six (and the second run of every other world) uses txhashset_read -> zip -> txhashset_write instead, preceded in faulty runs by eight byzantine archives (three drawn at random, then one byte flip in each of the three hash files and in the output and kernel data files): the honest archive unpacked, one thing changed (a byte flipped - three in four inside the part the archive header commits to -, a file truncated, removed, extended with junk, a quarter of it repeated, the two leaf sets swapped or emptied, or the zip itself cut / replaced by noise) and re-zipped; each is refused with the receiver's state unchanged, or accepted with exactly the reference state; never a panic. Oracle: honest segments validate (once the bitmap is assembled), corrupted ones are refused by add_*_segment, assembly completes within a bounded number of fault-free rounds, and the finalized head/roots/sizes/unspent set/validate(false) and the Merkle proof of every unspent output (up to 200) equal those of a node that processed every block to the archive header; then the remaining blocks are accepted, the tip state equals the server's and a restart succeeds",
 				vec!["liveness bound = 120 faulty rounds, then a benign network (request order, >= 8 deliveries per round) and at most 60 + 3 x (number of segments at the drawn heights) / deliveries per round further rounds (at least 400 in total)", "corruption of hashes the root does not depend on is not expected to be refused (statement); covered by the final-state clause"],
-				vec!["sync_completed", "multi_segment_sync", "corrupt_segment_refused", "zip_mode", "server_compacted", "multi_chunk_bitmap_archive", "quiet_tail_world", "hostile_request_served", "hostile_request_refused"],
+				vec!["sync_completed", "multi_segment_sync", "corrupt_segment_refused", "zip_mode", "server_compacted", "multi_chunk_bitmap_archive", "quiet_tail_world", "hostile_request_served", "hostile_request_refused", "hostile_archive_refused"],
 			);
 			sp.real_components = vec![
 				"grin_chain Segmenter, Desegmenter (add/apply/next_desired/check_progress/validate_complete_state), txhashset_read/txhashset_write, Chain on tmpfs".into(),
